@@ -26,6 +26,8 @@ from .cli_model import CLI, CliScenario
 from .sig_model import ST, StubScenario
 from .common import RepoInterp, bound_argument, call_sites, is_call_to, returns_of
 
+N_ROWS = 2500  # more rows than the default query limit, so that any fixed-size cut shows
+
 LEVEL = "other"
 LEVEL_TEXT = (
     "Static check of the wiring clause only: the glue functions between store, merging, rewriting, TypedDict replacement "
@@ -46,7 +48,7 @@ def rule_get_stub(ctx: Ctx, repo: Repo) -> None:
         def hook(call, fname, fval, a, kw, st, _b=built):
             m = call.func.attr if isinstance(call.func, ast.Attribute) else None
             if m == "filter":
-                return K(tuple(R("thunk", id=K(i)) for i in range(3)))
+                return K(tuple(R("thunk", id=K(i)) for i in range(N_ROWS)))
             if m == "to_trace" and isinstance(fval, R) and fval.kind == "thunk":
                 return R("decoded", id=fval.fields["id"])
             if fname == "print":
@@ -79,8 +81,10 @@ def rule_get_stub(ctx: Ctx, repo: Repo) -> None:
                   construct=f"disable_type_rewriting={disable}: rewriter={bound.get('rewriter')}")
         ctx.check(bound.get("max_typed_dict_size") == R("from_config", what=K("max_typed_dict_size"), config=S("config")), "R-C01.1", gs.fq,
                   "the TypedDict limit used for merging is the configuration's", construct=f"{bound.get('max_typed_dict_size')}")
-        ctx.check(bound.get("traces") == R("list", items=tuple(R("decoded", id=K(i)) for i in range(3))), "R-C01.1", gs.fq,
-                  "every decoded trace is handed to stub generation (no slicing, sampling or filtering)", construct=f"{bound.get('traces')}")
+        tr_ = bound.get("traces")
+        ctx.check(tr_ == R("list", items=tuple(R("decoded", id=K(i)) for i in range(N_ROWS))), "R-C01.1", gs.fq,
+                  "every decoded trace is handed to stub generation (no slicing, sampling or filtering)",
+                  construct=f"{len(tr_.fields['items']) if isinstance(tr_, R) and tr_.kind == 'list' else tr_} of {N_ROWS} decoded traces are passed on")
         ctx.check(bound.get("existing_annotation_strategy") == S("strategy"), "R-C01.1", gs.fq, "the requested annotation strategy is passed on", construct=f"{bound.get('existing_annotation_strategy')}")
 
 
@@ -149,10 +153,10 @@ def rule_traced_types(ctx: Ctx, repo: Repo) -> None:
             return None
         sc = StubScenario(repo, "FunctionDefinition.from_callable_and_traced_types", call_hook=hook)
         func = R("func", __qualname__=K("C.m"), __module__=K("pkg.mod"))
-        sc.result({ps[0]: S("class:monkeytype.stubs.FunctionDefinition"), ps[1]: func, ps[2]: R("dict", items=((K("a"), S("T:a")), (K("b"), S("T:b")))), ps[3]: rt, ps[4]: yt, ps[5]: S("strategy")})
+        sc.result({ps[0]: S("class:monkeytype.stubs.FunctionDefinition"), ps[1]: func, ps[2]: R("dict", items=((K("self"), S("T:self")), (K("a"), S("T:a")), (K("b"), S("T:b")))), ps[3]: rt, ps[4]: yt, ps[5]: S("strategy")})
         lab = f"return={'absent' if rt == K(None) else 'T'} yield={'absent' if yt == K(None) else 'T'}"
         a_ = upd.get("args")
-        ok = a_ is not None and a_[0] == S("sig0") and a_[1] == R("dict", items=((K("a"), R("replaced", of=S("T:a"))), (K("b"), R("replaced", of=S("T:b"))))) and a_[2] == K(True) and a_[3] == S("strategy")
+        ok = a_ is not None and a_[0] == S("sig0") and a_[1] == R("dict", items=((K("self"), R("replaced", of=S("T:self"))), (K("a"), R("replaced", of=S("T:a"))), (K("b"), R("replaced", of=S("T:b"))))) and a_[2] == K(True) and a_[3] == S("strategy")
         ctx.check(ok, "R-C01.3", fi.fq, "every traced argument type (after TypedDict replacement) reaches update_signature_args together with the function's own signature and receiver flag",
                   construct=f"{lab}: {a_}")
         r_ = upd.get("ret")
@@ -165,7 +169,7 @@ def rule_traced_types(ctx: Ctx, repo: Repo) -> None:
             bound = dict(zip(init.positional_params()[1:], pos))
             bound.update(kw)
             stubs = bound.get("typed_dict_class_stubs")
-            n_want = 2 + (rt != K(None)) + (yt != K(None))
+            n_want = 3 + (rt != K(None)) + (yt != K(None))
             ok = bound.get("sig") == S("sig2") and isinstance(stubs, R) and stubs.kind == "list" and len(stubs.fields["items"]) == n_want and \
                 bound.get("module") == K("pkg.mod") and bound.get("qualname") == K("C.m") and bound.get("kind") == S("kind")
         ctx.check(ok, "R-C01.3", fi.fq, "the definition carries the fully updated signature and every generated TypedDict class stub (arguments, return, yield)",
